@@ -17,6 +17,9 @@
 /*@unit {'name':'c06_cmp', 'props':['C06'], 'entry':'h_cmp', 'enforce':'cmpRuleEntry',
   'claims':'cmpRuleEntry (the qsort comparator applied to every success state at load) is negative exactly when a precedes b in the precedence order, positive exactly when b precedes a, zero exactly for the same rule'}@*/
 
+/*@unit {'name':'c06_find', 'props':['C06'], 'entry':'h_find', 'enforce':'Pass_findNDoRule', 'defines':['FIND','GRAPHITE2_NTRACING','NR=8','FINDN=24'], 'kind':'bounded', 'unwind':26,
+  'bound':'candidate list of at most 24 entries (capacity is MAX_RULES=128) over a pass of 8 rules; collaborators runFSM/testConstraint/doAction/collectGarbage/adjustSlot are ghost models (truth table per rule, call log)',
+  'claims':'findNDoRule (non-tracing build): candidates are tested in list order, each at most once, only while the machine is healthy; the rule acted on is the first candidate whose constraint is true (no earlier candidate passes), its action code is run exactly once, then garbage collection iff the action deletes and adjustSlot with the returned advance; if no candidate passes or the FSM does not run, no mutator is called and the cursor moves to slot->next(); a machine failure stops without action'}@*/
 /*@unit {'name':'c06_accumulate', 'props':['C06'], 'entry':'h_accum', 'enforce':'Rules_accumulate_rules', 'defines':['ACCUM','STUB_STORE'], 'min_loops':3,
   'claims':'accumulate_rules, all list lengths up to the real MAX_RULES=128 (loop contracts): every store goes to the next free entry of the other half of m_rules and never beyond its 128 entries, stores are strictly ascending in the precedence order (output sorted and duplicate-free), every stored entry is read from one of the two input lists, and unless the cap of 128 is reached every entry of both inputs has been stored (an equal entry counts once); m_begin/m_end delimit exactly the stored entries'}@*/
 /*@unit {'name':'c06_accumulate_b', 'props':['C06'], 'entry':'h_accum_b', 'enforce':'Rules_accumulate_rules', 'defines':['ACCUM','REAL_STORE'], 'kind':'bounded', 'unwind':10,
@@ -31,7 +34,13 @@ typedef struct RuleEntry { const Rule *rule; } RuleEntry;
 
 typedef struct State { const RuleEntry *rules, *rules_end; } State;
 /*@extract {'file':'src/inc/Rule.h', 'scope': r'class FiniteStateMachine\s*\{', 'kind':'range', 'start': r'enum \{MAX_RULES', 'end': r';', 'end_inclusive': True}@*/
+#ifdef STUB_STORE
+/* unit c06_accumulate only: m_rules as a pointer to a separate 2*MAX_RULES array object (the code uses m_rules only in `m_rules + k`
+   and `m_begin == m_rules`, where the member array decays to the same pointer); keeps the cursors out of the big object */
+typedef struct Rules { RuleEntry *m_begin, *m_end, *m_rules; } Rules;
+#else
 typedef struct Rules { RuleEntry *m_begin, *m_end, m_rules[MAX_RULES*2]; } Rules;
+#endif
 
 /* ------------------------------------------------------------------ ghost state / spec */
 const Rule *g_rules;      /* the pass's rule array (Pass::m_rules); every RuleEntry points into it */
@@ -304,3 +313,115 @@ void h_accum_b(void)
 }
 #endif
 #endif /* ACCUM */
+
+/* ================================================================== findNDoRule */
+#ifdef FIND
+typedef struct Slot { struct Slot *m_next, *m_prev; unsigned short m_glyphid; } Slot;
+typedef struct SlotMap SlotMap;
+typedef struct Pass Pass;
+struct Code { bool _delete; };
+/*@extract {'if':'FIND', 'file':'src/inc/Machine.h', 'scope': r'class Machine\s*\{', 'kind':'range', 'start': r'enum status_t \{', 'end': r'\};', 'end_inclusive': True}@*/
+typedef struct Machine { enum status_t _status; } Machine;
+typedef struct FiniteStateMachine { Rules rules; SlotMap *slots; void *dbgout; } FiniteStateMachine;
+/*@extract {'if':'FIND', 'file':'src/inc/Machine.h', 'sig': r'inline Machine::status_t Machine::status\(\) const throw\(\)', 'emit':'static enum status_t Machine_status(const Machine *self)', 'self':['_status']}@*/
+/*@extract {'if':'FIND', 'file':'src/inc/Code.h', 'scope': r'class Machine::Code\s*\{', 'sig': r'bool\s+deletes\(\) const throw\(\)', 'emit':'static bool Code_deletes(const Code *self)', 'self':['_delete']}@*/
+/*@extract {'if':'FIND', 'file':'src/inc/Slot.h', 'scope': r'class Slot\s*\{', 'sig': r'Slot \*next\(\) const', 'emit':'static Slot *Slot_next(const Slot *self)', 'self':['m_next']}@*/
+/*@extract {'if':'FIND', 'file':'src/inc/Rule.h', 'sig': r'const RuleEntry \* FiniteStateMachine::Rules::begin\(\) const', 'emit':'static const RuleEntry * Rules_begin(const Rules *self)', 'self':['m_begin','m_end','m_rules']}@*/
+/*@extract {'if':'FIND', 'file':'src/inc/Rule.h', 'sig': r'const RuleEntry \* FiniteStateMachine::Rules::end\(\) const', 'emit':'static const RuleEntry * Rules_end(const Rules *self)', 'self':['m_begin','m_end','m_rules']}@*/
+
+/* ---- ghost: the candidate list runFSM leaves, a truth table of the constraints, a call log */
+Slot **g_slotp; Slot *g_slot0, *g_next0; Machine *g_m; FiniteStateMachine *g_fsm;
+const RuleEntry *g_ebase; size_t g_n;      /* candidates E = g_ebase[0..g_n) in precedence order */
+bool g_run_ok;                             /* result of runFSM */
+bool g_tc[NR], g_fail[NR];                 /* per rule: constraint true / running it breaks the machine */
+size_t g_tc_calls, g_acted, g_gc, g_adjusted, g_w, g_k;
+const Code *g_acted_code; int g_adv; bool g_act_fails;
+#define TC(k) (g_tc[IDX(g_ebase[k].rule)] && !g_fail[IDX(g_ebase[k].rule)])
+Slot *nondet_slotp(void); int nondet_int(void);
+
+/* ghost models of the collaborators (bodies: asserts = their call-site obligations, assignments = their logged effect) */
+static bool Pass_runFSM(const Pass *self, FiniteStateMachine *fsm, Slot *slot)
+{
+    __CPROVER_assert(slot == g_slot0 && g_tc_calls == 0, "runFSM is run once, on the cursor slot");
+    fsm->rules.m_begin = (RuleEntry *)g_ebase; fsm->rules.m_end = (RuleEntry *)g_ebase + g_n;      /* the accumulated candidates */
+    return g_run_ok;
+}
+static bool Pass_testConstraint(const Pass *self, const Rule *r, Machine *m)
+{
+    __CPROVER_assert(g_run_ok && g_acted == 0 && m->_status == finished, "constraints are tested only after a successful FSM run, before any action, on a healthy machine");
+    __CPROVER_assert(g_tc_calls < g_n && r == g_ebase[g_tc_calls].rule, "candidates are tested in list order, each once");
+    g_tc_calls = g_tc_calls + 1;
+    if (g_fail[IDX(r)]) { m->_status = died_early; return false; }
+    return g_tc[IDX(r)];
+}
+static int Pass_doAction(const Pass *self, const Code *codeptr, Slot **slot_out, Machine *m)
+{
+    __CPROVER_assert(g_acted == 0 && m->_status == finished && slot_out == g_slotp, "at most one action per position, on a healthy machine");
+    g_acted = 1; g_acted_code = codeptr; g_w = g_tc_calls - 1;
+    if (g_act_fails) { m->_status = slot_offset_out_bounds; *slot_out = NULL; return 0; }
+    *slot_out = nondet_slotp();
+    return g_adv;
+}
+static void SlotMap_collectGarbage(SlotMap *smap, Slot **aSlot)
+{
+    __CPROVER_assert(g_acted == 1 && g_adjusted == 0 && g_m->_status == finished && smap == g_fsm->slots && aSlot == g_slotp, "garbage collection only after a successful action, before adjustSlot");
+    g_gc = g_gc + 1; *aSlot = nondet_slotp();
+}
+static void Pass_adjustSlot(const Pass *self, int delta, Slot **slot_out, SlotMap *smap)
+{
+    __CPROVER_assert(g_acted == 1 && g_m->_status == finished && delta == g_adv && smap == g_fsm->slots && slot_out == g_slotp, "adjustSlot gets the advance the action returned");
+    g_adjusted = g_adjusted + 1; *slot_out = nondet_slotp();
+}
+
+void Pass_findNDoRule(const Pass *self, Slot **slot, Machine *m, FiniteStateMachine *fsm)
+__CPROVER_requires(slot == g_slotp && *slot == g_slot0 && g_slot0 != NULL && g_slot0->m_next == g_next0 && m == g_m && fsm == g_fsm && m->_status == finished)
+__CPROVER_requires(g_n <= MAX_RULES && g_tc_calls == 0 && g_acted == 0 && g_gc == 0 && g_adjusted == 0)
+__CPROVER_assigns(*slot, m->_status, fsm->rules.m_begin, fsm->rules.m_end, g_tc_calls, g_acted, g_gc, g_adjusted, g_w, g_acted_code)
+/* the FSM did not run (too little pre-context / too many slots): nothing is tested or done, the glyph passes through */
+__CPROVER_ensures(!g_run_ok ==> (g_tc_calls == 0 && g_acted == 0 && g_gc == 0 && g_adjusted == 0 && *slot == g_next0 && m->_status == finished))
+/* precedence: the rule acted on is a candidate whose constraint is true, and no earlier candidate (ghost index g_k) passes */
+__CPROVER_ensures(g_acted == 1 ==> (g_run_ok && g_w < g_n && g_acted_code == g_ebase[g_w].rule->action && TC(g_w) && (g_k >= g_w || !TC(g_k))))
+/* if some candidate passes, a rule fires (or the machine failed on the way) */
+__CPROVER_ensures((g_run_ok && g_k < g_n && TC(g_k)) ==> (g_acted == 1 || m->_status != finished))
+/* no candidate passes: every candidate was tested, no mutator is called, the cursor moves to the next slot */
+__CPROVER_ensures((g_acted == 0 && m->_status == finished) ==> (g_gc == 0 && g_adjusted == 0 && *slot == g_next0 && (!g_run_ok || g_tc_calls == g_n)))
+/* after a successful action: garbage collection iff the action deletes, then exactly one adjustSlot */
+__CPROVER_ensures((g_acted == 1 && m->_status == finished) ==> (g_adjusted == 1 && g_gc == (g_acted_code->_delete ? 1 : 0)))
+/* a machine failure (in a constraint or in the action) stops without garbage collection / adjustSlot */
+__CPROVER_ensures(m->_status != finished ==> (g_gc == 0 && g_adjusted == 0));
+
+/*@extract {'if':'FIND', 'file':'src/Pass.cpp', 'sig': r'void Pass::findNDoRule\(Slot \* & slot, Machine &m, FiniteStateMachine & fsm\) const',
+   'emit':'void Pass_findNDoRule(const Pass *self, Slot **slot, Machine *m, FiniteStateMachine *fsm)',
+   'subs':[[r'runFSM\(fsm, slot\)', 'Pass_runFSM(self, fsm, slot)', 0],
+           [r'fsm\.rules\.begin\(\)', 'Rules_begin(&fsm->rules)', 0], [r'fsm\.rules\.end\(\)', 'Rules_end(&fsm->rules)', 0],
+           [r'testConstraint\(\*r->rule, m\)', 'Pass_testConstraint(self, r->rule, m)', 0],
+           [r'm\.status\(\)', 'Machine_status(m)', 0], [r'Machine::finished', 'finished', 0],
+           [r'doAction\(r->rule->action, slot, m\)', 'Pass_doAction(self, r->rule->action, &slot, m)', 0],
+           [r'r->rule->action->deletes\(\)', 'Code_deletes(r->rule->action)', 0],
+           [r'fsm\.slots\.collectGarbage\(slot\)', 'SlotMap_collectGarbage(fsm->slots, &slot)', 0],
+           [r'adjustSlot\(adv, slot, fsm\.slots\)', 'Pass_adjustSlot(self, adv, &slot, fsm->slots)', 0],
+           [r'slot->next\(\)', 'Slot_next(slot)', 0], [r'\bfsm\.', 'fsm->', 0]],
+   'refs':['slot']}@*/
+
+void h_find(void)
+{
+    size_t n = nondet_size_t(), nrules = nondet_size_t();
+    __CPROVER_assume(n <= FINDN && nrules <= NR);
+    Rule *rs = mk_rules(nrules);
+    RuleEntry *es = malloc(n * sizeof(RuleEntry)); __CPROVER_assume(es != NULL);                 /* exact size */
+    for (size_t k = 0; k < FINDN; ++k) if (k < n) { size_t a = nondet_size_t(); __CPROVER_assume(a < nrules); es[k].rule = rs + a; }
+    struct Code *codes = malloc(NR * sizeof(struct Code)); __CPROVER_assume(codes != NULL);
+    for (size_t k = 0; k < NR; ++k) if (k < nrules) { codes[k]._delete = nondet_bool(); rs[k].action = codes + k; }
+    Slot *s0 = malloc(sizeof(Slot)), *s1 = nondet_bool() ? NULL : malloc(sizeof(Slot)); __CPROVER_assume(s0 != NULL);
+    s0->m_next = s1;
+    Slot **sp = malloc(sizeof(Slot *)); __CPROVER_assume(sp != NULL); *sp = s0;
+    Machine *m = malloc(sizeof(Machine)); __CPROVER_assume(m != NULL); m->_status = finished;
+    FiniteStateMachine *fsm = malloc(sizeof(FiniteStateMachine)); __CPROVER_assume(fsm != NULL);
+    fsm->slots = malloc(1);
+    g_slotp = sp; g_slot0 = s0; g_next0 = s1; g_m = m; g_fsm = fsm; g_ebase = es; g_n = n;
+    g_run_ok = nondet_bool(); g_act_fails = nondet_bool(); g_adv = nondet_int(); g_k = nondet_size_t();
+    g_tc_calls = g_acted = g_gc = g_adjusted = 0;
+    Pass_findNDoRule(malloc(1), sp, m, fsm);
+    CANARY();
+}
+#endif /* FIND */
